@@ -24,6 +24,7 @@ import (
 
 	v1 "github.com/fatedier/frp/pkg/config/v1"
 	"github.com/fatedier/frp/pkg/util/tcpmux"
+	"github.com/fatedier/frp/pkg/util/verifhook"
 	"github.com/fatedier/frp/pkg/util/vhost"
 )
 
@@ -59,6 +60,7 @@ func (tmgc *TCPMuxGroupCtl) Listen(
 	}
 	tmgc.mu.Unlock()
 
+	verifhook.At("server.group.tcpmux.afterLookup", group)
 	switch v1.TCPMultiplexerType(multiplexer) {
 	case v1.TCPMultiplexerHTTPConnect:
 		return tcpMuxGroup.HTTPConnectListen(ctx, group, groupKey, routeConfig)
@@ -154,6 +156,7 @@ func (tmg *TCPMuxGroup) worker() {
 		if err != nil {
 			return
 		}
+		verifhook.At("server.group.tcpmux.worker.beforeHandoff", tmg.group)
 		err = gerr.PanicToError(func() {
 			tmg.acceptCh <- c
 		})
@@ -169,6 +172,7 @@ func (tmg *TCPMuxGroup) Accept() <-chan net.Conn {
 
 // CloseListener remove the TCPMuxGroupListener from the TCPMuxGroup
 func (tmg *TCPMuxGroup) CloseListener(ln *TCPMuxGroupListener) {
+	verifhook.At("server.group.tcpmux.closeListener.enter", ln.groupName)
 	tmg.mu.Lock()
 	defer tmg.mu.Unlock()
 	for i, tmpLn := range tmg.lns {
